@@ -220,41 +220,22 @@ func child() {
 		}
 	}
 	libBase := leak.Settle(func() int { n, _ := leak.LibNow(); return n }, 2*time.Second)
+	sess := gen.NewSession(c, kind)
 	half := len(reqs) / 2
 	libHalf := -1
 	for i, rq := range reqs {
 		rep.Progress(fmt.Sprintf("%s #%d %s :: %s", kind, i, rq.Label, bounded(string(rq.Body))))
-		body := rq.Body
-		if kind == kit.Stdio {
-			body = []byte(strings.NewReplacer("\n", " ", "\r", " ").Replace(string(body)))
-		}
 		xctx, cancel := context.WithTimeout(ctx, 20*time.Second)
 		var ex *kit.Exchange
+		var o gen.Outcome
 		if rq.Label == "http|GET-live-session" {
 			ex = getLive(xctx, c)
+			sess = gen.NewSession(c, kind)
+			o = gen.Observe(kind, ex)
 		} else {
-			ex = c.Post(xctx, body, rq.Opts)
+			ex, o = sess.Do(xctx, rq)
 		}
 		cancel()
-		o := gen.Observe(kind, ex)
-		async := kind == kit.Stdio || kind == kit.LSSE
-		if async && (o.Class == "silence" || o.Class == "accepted-202") && rq.Expect.Class != "accepted" && rq.Expect.Class != "anything" && rq.Expect.Class != "httprefuse" {
-			// confirm with a slow second post
-			from := c.Log.Len()
-			o2 := rq.Opts
-			o2.NoWait = true
-			ex2 := c.Post(ctx, body, o2)
-			if _, ok := c.Log.WaitFor(from, 3*time.Second, func(f kit.Frame) bool {
-				id, has, hm := kit.FrameID(f.Data)
-				return !(has && !hm && strings.HasPrefix(id, `"fence-`))
-			}); ok {
-				time.Sleep(20 * time.Millisecond)
-				for _, f := range c.Log.Since(from) {
-					ex2.Frames = append(ex2.Frames, f.Data)
-				}
-				o = gen.Observe(kind, ex2)
-			}
-		}
 		rep.Eval(1)
 		if sym := judge(rq, o); sym != "" {
 			rep.Violation(fmt.Sprintf("C06|%s|%s|%s", rq.Label, kind, sym), fmt.Sprintf("%s: input class %q: %s", kind, rq.Label, sym),
